@@ -79,6 +79,15 @@ def _const_w(a, cin):
     return r.standard_normal((int(a["co"]), int(cin), int(a["k"])))
 
 
+def value_reqs(leaves, instrs):
+    """requires_grad of every value id (a result requires grad iff some operand does)"""
+    reqs = [bool(l["req"]) for l in leaves]
+    for ins in instrs:
+        r = any(reqs[i] for i in ins["in"])
+        reqs.extend([r] * ins["nout"])
+    return reqs
+
+
 def run_numpy(prog, leaf_vals):
     vals = list(leaf_vals)
     for ins in prog["instrs"]:
@@ -186,6 +195,16 @@ def generate(rng, n_instr, n_leaves, allow_kinks=False, big=False, leaves=None, 
         ins_in = [pick() for _ in range(ar)]
         if ar == 2 and rng.random() < 0.2:
             ins_in[1] = ins_in[0]          # same tensor twice in one op
+        elif ar >= 2 and rng.random() < 0.3:
+            # mixed operands: put a value that does NOT require grad first and one that does after it (same shape if possible)
+            reqs = value_reqs(leaves, instrs)
+            nr = [i for i in range(len(vals)) if not reqs[i]]
+            rq = [i for i in range(len(vals)) if reqs[i]]
+            if nr and rq:
+                b_ = rq[int(rng.integers(len(rq)))]
+                same = [i for i in nr if np.shape(vals[i]) == np.shape(vals[b_])]
+                a_ = same[int(rng.integers(len(same)))] if same else nr[int(rng.integers(len(nr)))]
+                ins_in[0], ins_in[1] = a_, b_
         x = [vals[i] for i in ins_in]
         args = {}
         try:
